@@ -79,7 +79,7 @@ func (a *Real64) ConvertScalar(t ScalarType) Scalar {
   default:
     r := NullScalar(t)
     r.Set(a)
-    return a
+    return r
   }
 }
 func (a *Real64) ConvertMagicScalar(t ScalarType) MagicScalar {
@@ -87,9 +87,9 @@ func (a *Real64) ConvertMagicScalar(t ScalarType) MagicScalar {
   case Real64Type:
     return a
   default:
-    r := NullScalar(t)
+    r := NullScalar(t).(MagicScalar)
     r.Set(a)
-    return a
+    return r
   }
 }
 func (a *Real64) ConvertConstScalar(t ScalarType) ConstScalar {
